@@ -22,6 +22,9 @@ struct SockClientThread : public Thread
 		_server->serve(_client);
 		_client.close();
 		--_server->_numClients;
+	}
+	void ended()
+	{
 		delete this;
 	}
 };
